@@ -22,6 +22,7 @@ HullMul(a, b) == LET c == { XMul(a.lo, b.lo), XMul(a.lo, b.hi), XMul(a.hi, b.lo)
 HullScale(a, k) == IF RSign(k) > 0 THEN [lo |-> XMul(a.lo, k), hi |-> XMul(a.hi, k)]
                    ELSE [lo |-> XMul(a.hi, k), hi |-> XMul(a.lo, k)]                       \* k # 0
 HullShift(a, k) == [lo |-> XAdd(a.lo, k), hi |-> XAdd(a.hi, k)]
+HullUnion(a, b) == [lo |-> XMin(a.lo, b.lo), hi |-> XMax(a.hi, b.hi)]
 RECURSIVE XPow(_,_)
 XPow(x, n) == IF n = 0 THEN One ELSE XMul(x, XPow(x, n-1))
 HullPow(a, n) ==
